@@ -1,0 +1,28 @@
+//go:build verif
+
+// Contracts for deductive verification (comment-only; compiled only with -tags verif).
+// Syntax and semantics: /verif/DESIGN.md §2.6 and Appendix A.
+
+package lanes
+
+// the match handler returned by SystemLaneMatchHandler()
+//@ func SystemLaneMatchHandler$1
+//@   let msgs := txMsgs(tx)
+//@   ensures r ==> len(msgs) == 1                                                                      // C20: system_tx_has_exactly_one_message
+//@   ensures r ==> isType(msgs[0], "*github.com/initia-labs/OPinit/x/opchild/types.MsgUpdateOracle") || isType(msgs[0], "*github.com/cosmos/cosmos-sdk/x/authz.MsgExec")                                      // C20: oracle_update_or_single_exec
+//@   ensures len(msgs) == 1 && isType(msgs[0], "*github.com/initia-labs/OPinit/x/opchild/types.MsgUpdateOracle") ==> r                                             // C20: single_oracle_update_matches
+//@   ensures len(msgs) != 1 ==> !r                                                                     // C20: other_lengths_never_match
+//@   loop 0 invariant 0 <= $i && $i <= len(msgs)
+//@   loop 0 invariant forall j int :: 0 <= j && j < $i ==> isType(msgs[j], "*github.com/initia-labs/OPinit/x/opchild/types.MsgUpdateOracle") || isType(msgs[j], "*github.com/cosmos/cosmos-sdk/x/authz.MsgExec")
+//@   assigns \nothing
+
+// the match handler returned by FreeLaneMatchHandler.MatchHandler()
+//@ func (FreeLaneMatchHandler) MatchHandler$1
+//@   let wl := val(Params).FeeWhitelist
+//@   requires Params != None ==> forall j int :: 0 <= j && j < len(wl) ==> wl[j] != ""               // INV_PARAMS: Params.Validate rejects empty whitelist entries
+//@   ensures r ==> implements(tx, "github.com/cosmos/cosmos-sdk/types.FeeTx") && Params != None        // C20: fee_tx_and_whitelist_readable
+//@   ensures r ==> exists j int :: 0 <= j && j < len(wl) && ((addrStrOK(1, feePayer(tx)) && wl[j] == addrStr(1, feePayer(tx)))
+//@        || (feeGranter(tx) != "" && addrStrOK(1, feeGranter(tx)) && wl[j] == addrStr(1, feeGranter(tx))))                      // C20: payer_or_granter_whitelisted
+//@   loop 0 invariant 0 <= $i && $i <= len(whitelist)
+//@   loop 0 invariant forall j int :: 0 <= j && j < $i ==> whitelist[j] != payer && whitelist[j] != granter
+//@   assigns \nothing
